@@ -879,6 +879,9 @@ func (s *Subscription) reaccess(t *rescache.Throttle) {
 
 	if s.queueFlag != 0 {
 		verifSub("sub.reaccessDeferred", s)
+		// The cached access is no longer valid, even though the new access
+		// check is deferred until the queued events are released.
+		s.access = nil
 		s.flags |= flagReaccess
 		if t != nil {
 			s.reaccessThrottle = t
